@@ -25,7 +25,14 @@ def do_history(ops, ode_from_string):
             k = op["op"]
             if k == "load_generate":
                 o = ode_from_string(op["text"])
-                gotran2py.get_code(o, format=PF.none, scheme=[Scheme(s) for s in op.get("schemes", [])] or None, stiff_states=[s.name for s in o.states][:1])
+                kw = {}
+                if op.get("shape"):
+                    from gotranx.codegen.base import Shape
+
+                    kw["shape"] = Shape(op["shape"])
+                if op.get("jax"):
+                    kw["backend"] = gotran2py.Backend("jax")
+                gotran2py.get_code(o, format=PF.none, scheme=[Scheme(s) for s in op.get("schemes", [])] or None, stiff_states=[s.name for s in o.states][:1], remove_unused=bool(op.get("remove_unused")), **kw)
                 if op.get("c"):
                     gotran2c.get_code(o, format=CF.none)
             elif k == "get_scheme":
